@@ -68,17 +68,17 @@ Definition params_view (q : FdParams) : args := [[fp_offset q]; fp_data q; meta_
 
 (* after every operation: [0] or [1; class], all views, what the call returned; at the end the
    parameter object (the caller's, which the PDU aliases) *)
-Fixpoint fd_run (p : FileDataPdu) (ops : list (list Z)) : args :=
+Fixpoint fd_run (w : fworld) (ops : list (list Z)) : args :=
   match ops with
-  | [] => params_view (fd_params p)
+  | [] => params_view (fd_params (fw_pdu w)) ++ [conf_ids (fw_caller w); conf_flags (fw_caller w)]
   | l :: r =>
       match fd_hop_of l with
-      | Err e => [1; canon_err e] :: fd_state p ++ [] :: fd_run p r
+      | Err e => [1; canon_err e] :: fd_state (fw_pdu w) ++ [] :: fd_run w r
       | Ok o =>
-          let '(p', out) := fd_step p o in
+          let '(w', out) := fw_step w o in
           match out with
-          | Ok v => [0] :: fd_state p' ++ v :: fd_run p' r
-          | Err e => [1; canon_err e] :: fd_state p' ++ [] :: fd_run p' r
+          | Ok v => [0] :: fd_state (fw_pdu w') ++ v :: fd_run w' r
+          | Err e => [1; canon_err e] :: fd_state (fw_pdu w') ++ [] :: fd_run w' r
           end
       end
   end.
@@ -110,14 +110,13 @@ Definition run_filedata (op : Z) (a : args) : args :=
      history of operations; the caller's PduConfig and parameter object at the end *)
   | 1407 => match (do c <- conf_of_kind (int 5 0 a) (lst 0 a) (lst 1 a);
                    do r <- fd_new c (params_of_args (lst 2 a) (lst 3 a) (lst 4 a)); Ok r) with
-            | Ok (p, c) => [0] :: fd_state p ++ [conf_ids c; conf_flags c] ++
-                           fd_run p (skipn 6 a) ++ [conf_ids c; conf_flags c]
+            | Ok (p, c) => [0] :: fd_state p ++ [conf_ids c; conf_flags c] ++ fd_run (fw_init p c) (skipn 6 a)
             | Err e => ret_err e
             end
   (* p = FileDataPdu.unpack(data) (bytes, or a bytearray that is overwritten afterwards: [1] =
      nothing of p changed); a history of operations *)
   | 1408 => match fd_unpack (lst 0 a) with
-            | Ok p => [0] :: [1] :: fd_state p ++ fd_run p (skipn 2 a)
+            | Ok p => [0] :: [1] :: fd_state p ++ fd_run (fw_init p (h_conf (fd_hdr p))) (skipn 2 a)
             | Err e => ret_err e
             end
   (* Spec side (independent oracle): layout of (conf fields, params) *)
